@@ -26,7 +26,7 @@ func buildReport(w *World, o *Options, encs []*Enc, obls, grounds, lemmas []*Obl
 func (r *Report) finish(w *World, o *Options, start time.Time) int {
 	known := loadKnown(o.verif)
 	all := append(append(append([]*Obligation{}, r.obls...), r.grounds...), r.lemmas...)
-	discharged, bounded := 0, 0
+	discharged, bounded, failedBounded := 0, 0, 0
 	byBackend := map[string]int{}
 	var solverMs int64
 	var failures []*Obligation
@@ -42,6 +42,11 @@ func (r *Report) finish(w *World, o *Options, start time.Time) int {
 				byBackend[ob.Backend]++
 			}
 		default:
+			if ob.Bounded {
+				// a failed bounded stand-in / audit is never part of the proof-level count either
+				// (it is a violation, or a known finding)
+				failedBounded++
+			}
 			failures = append(failures, ob)
 		}
 	}
@@ -173,7 +178,7 @@ func (r *Report) finish(w *World, o *Options, start time.Time) int {
 		kinds[ob.Kind]++
 	}
 	cov := map[string]interface{}{
-		"obligations":              len(all) - bounded,
+		"obligations":              len(all) - bounded - failedBounded,
 		"discharged":               discharged,
 		"checker_cmd":              fmt.Sprintf("/verif/bin/govc check --property %s --tier %s", o.property, o.tier),
 		"trusted_base":             trusted,
@@ -183,7 +188,7 @@ func (r *Report) finish(w *World, o *Options, start time.Time) int {
 		"by_kind":                  kinds,
 		"solver_ms":                solverMs,
 		"load_ms":                  r.loadMs,
-		"bounded_obligations":      bounded,
+		"bounded_obligations":      bounded + failedBounded,
 		"ground_obligations":       len(r.grounds),
 		"lemma_obligations":        len(r.lemmas),
 		"obligation_names":         names,
